@@ -556,6 +556,12 @@ class Sim:
             self.drop_chunk(a(1))
         elif o == 16 and len(op) >= 3:
             self.create(a(1), a(2), a(3), a(4))
+        elif o == 17 and len(op) >= 2:
+            # an inbound QoS 1 PUBLISH answered at once: the PUBACK is the response of the request (io.encode, not the
+            # sink's encode_packet); ignored when not open / id 0 / a streamed payload is owed / client role
+            pid = a(1) % 65536
+            if self.io == 0 and self.srem == 0 and pid != 0 and not self.client:
+                self.wire += [104, pid]
         if self.io == 1:
             self.io = 2
         return self.observe()
@@ -811,6 +817,9 @@ def rand_case(rng, ver, role=0, maxlen=40, flavour=None, p_create=0.0):
         else:
             op = rng.choice([[2, rng.randint(1, max(1, next_t))], [3, rng.randint(1, max(1, next_t))], [6, 1], [7, 1],
                              [13, 1, 2], [14, 1], [15, 1], [1, 1, 1, 0]])
+        if op is not None and rng.random() < 0.05:
+            # an inbound request in between (rare): the peer publishes with QoS 1
+            op = [17, rng.choice([1, 2, 3, 4, 5, 6, 7, 8, 9, 9, 300, 65535, 0])]
         if op is None:
             continue
         ops.append(op)
@@ -1105,6 +1114,11 @@ SEEDS = [
     # ... while a streamed payload is owed (ExpectPayload comes first), created without the first poll, closed while parked
     "2,0;1,1,7,0,4;1,2,8,0;13,1,4;1,3,8,0;16,4,8,3;16,5,1,3;2,4;2,5;4,1,1;4,1,3;2,1;2,5",
     "1,0;1,1,1,0;1,2,8,0;16,3,8,0;10;2,2;2,3;2,1",
+    # op 17 (inbound QoS 1 PUBLISH): the window is full (cap 1, one QoS 1 send outstanding): the PUBACK must be written
+    "1,0;1,1,1,0;17,9;4,1,1;2,1;17,9",
+    # ... write back-pressure is on; ... ignored while a streamed payload is owed, with id 0 and after the close
+    "2,0;8,1;17,9;1,1,1,0;17,10;8,0;2,1;17,11",
+    "2,0;1,1,7,0,4;17,5;13,1,4;17,5;17,0;10;17,6",
 ]
 
 
